@@ -71,6 +71,10 @@ _REQUIRED_QUICK = [
     'coord_deduced_single', 'coord_deduced_dimcoord', 'coord_explicit', 'refused_ambiguous',
     'refused_novar', 'refused_edges', 'refused_mask', 'refused_ndim0', 'refused_ndim2', 'refused_nocoord',
     'layout_strided', 'layout_slice',
+    'refused_scalar_coord', 'ambiguous_with_exactly_one_aligned', 'ambiguous_all_unaligned', 'alignment_written_explicit',
+    'alignment_written_deduced', 'alignment_unaligned_coord_written', 'alignment_scalar_realigned', 'production_direct', 'production_slice_of_2d',
+    'suffix_.xye', 'suffix_.dat', 'suffix_none', 'suffix_.gz', 'suffix_.bz2', 'suffix_.xz', 'suffix_.GZ', 'suffix_.xye.gz',
+    'preexisting_none', 'preexisting_longer_valid', 'preexisting_garbage', 'disk_compressed_readable', 'target_rep_ok',
 ]
 REQUIRED_CLASSES = {
     'quick': _REQUIRED_QUICK,
@@ -154,6 +158,21 @@ def cases(tier):
             for n in (1, 3):
                 for tgt in ('sio', 'path_str', 'fh'):
                     out.append({'kind': 'refusal', 'defects': list(combo), 'explicit': explicit, 'rows': n, 'target': tgt})
+    # coordinate sets x alignment flags: every subset of {dimension-coordinate, 1-d coord a, 1-d coord b, scalar coord}
+    for k in range(5):
+        for subset in itertools.combinations(COORD_KINDS, k):
+            for production in ('direct', 'slice_of_2d'):
+                for tgt in ('sio', 'path_str'):
+                    out.append({'kind': 'alignment', 'subset': list(subset), 'production': production, 'target': tgt})
+    # target representation x file-name suffix x pre-existing file
+    for rep in ('path_str', 'path_obj'):
+        for suffix in SUFFIXES:
+            for pre in PREEXISTING:
+                out.append({'kind': 'target_rep', 'target': rep, 'suffix': suffix, 'preexisting': pre})
+    for suffix in ('.xye', '.gz', ''):
+        for pre in PREEXISTING:
+            out.append({'kind': 'target_rep', 'target': 'fh', 'suffix': suffix, 'preexisting': pre})
+    out.append({'kind': 'target_rep', 'target': 'sio', 'suffix': '', 'preexisting': 'none'})
     if tier == 'thorough':
         out.extend(_thorough_cases())
     return out
@@ -274,15 +293,19 @@ def make_da(xs, ys, es, *, dim='x', coord_name='x', unit='one', coord_unit='one'
 
 
 def judge_roundtrip(rec, case, tgt, da, xs, ys, es, *, header_kw, coord_kw=None, load_coord=None, coord_name='x',
-                    dim='x', unit='one', coord_unit='one', sub=None, check_text=True):
-    """save -> (text checks) -> load -> bitwise / ulp comparison.  Returns True if all fine."""
+                    dim='x', unit='one', coord_unit='one', sub=None, check_text=True, keep_existing=False):
+    """save -> (text checks) -> load -> bitwise / ulp comparison.  Returns True if all fine.
+
+    ``keep_existing``: do not clear the target first (it holds an older file that the save must replace).
+    """
     sub = dict(sub or {})
     n = len(xs)
     kw = dict(header_kw)
     if coord_kw is not None:
         kw['coord'] = coord_kw
     rec.transitions += 1
-    tgt.reset()
+    if not keep_existing:
+        tgt.reset()
     try:
         tgt.save(da, **kw)
     except Exception as e:  # noqa: BLE001 - saving representable data must work
@@ -452,6 +475,10 @@ def _run(case, rec, tgt):
         _run_coords(case, rec, tgt)
     elif kind == 'refusal':
         _run_refusal(case, rec, tgt)
+    elif kind == 'alignment':
+        _run_alignment(case, rec, tgt)
+    elif kind == 'target_rep':
+        _run_target_rep(case, rec, tgt)
     elif kind in THOROUGH_RUNNERS:
         THOROUGH_RUNNERS[kind](case, rec, tgt)
     else:
@@ -519,7 +546,7 @@ def _run_coords(case, rec, tgt):
     judge_roundtrip(rec, case, tgt, da, table[chosen], ys, es, header_kw={}, coord_kw=explicit, load_coord=load_coord)
 
 
-def _expect_refusal(rec, tgt, da, kw, defects):
+def _expect_refusal(rec, tgt, da, kw, defects, **sub):
     rec.transitions += 1
     tgt.reset()
     try:
@@ -527,13 +554,13 @@ def _expect_refusal(rec, tgt, da, kw, defects):
     except Exception as e:  # noqa: BLE001 - "refused" accepts any exception (DESIGN 3.3)
         rec.observe(type(e).__name__)
         if not tgt.nothing_written():
-            rec.viol('save_xye', 'refused_but_wrote', f'raised {type(e).__name__} but left {tgt.raw_text()[:80]!r} in the target', defects=defects)
+            rec.viol('save_xye', 'refused_but_wrote', f'raised {type(e).__name__} but left {tgt.raw_text()[:80]!r} in the target', defects=defects, **sub)
         else:
             rec.cls('refused')
             for d in defects:
                 rec.cls('refused_' + d)
     else:
-        rec.viol('save_xye', 'not_refused', f'data with defects {defects} was written: {(tgt.raw_text() or "")[:120]!r}', defects=defects)
+        rec.viol('save_xye', 'not_refused', f'data with defects {defects} was written: {(tgt.raw_text() or "")[:120]!r}', defects=defects, **sub)
     rec.evals += 1
     rec.validated += 1
 
@@ -569,6 +596,161 @@ def _run_refusal(case, rec, tgt):
     assert da.ndim == (0 if 'ndim0' in defects else 2 if 'ndim2' in defects else 1)  # noqa: S101
     rec.nontrivial += 1
     _expect_refusal(rec, tgt, da, kw, defects)
+
+
+# ---------------------------------------------------------------------------------------
+# coordinate sets x alignment flags (which coordinate is deduced; ambiguity is counted over ALL coordinates)
+
+COORD_KINDS = ('dimcoord', 'a', 'b', 'scalar')
+COORD_NAME = {'dimcoord': 'x', 'a': 'a', 'b': 'b', 'scalar': 'spectrum'}
+
+
+def expected_choice(subset, explicit):
+    """Reference rule of the docstring: the name that must be written, or None when the call must be refused.
+
+    coord given -> that coordinate; omitted and exactly one coordinate -> that one; omitted and several -> the one named
+    like the dimension, else refuse.  Alignment flags play no role.  A 0-d coordinate cannot be the X column -> refuse.
+    """
+    if explicit is not None:
+        chosen = explicit
+    elif len(subset) == 0:
+        return None
+    elif len(subset) == 1:
+        chosen = subset[0]
+    elif 'dimcoord' in subset:
+        chosen = 'dimcoord'
+    else:
+        return None
+    return None if chosen == 'scalar' else chosen
+
+
+def build_aligned_da(n, subset, flags, production):
+    """(da, table): 1-d data with the requested coordinates; table maps coordinate kind -> values written if chosen."""
+    ys, es = VALUES[:n], VARS[3 : 3 + n]
+    table = {kind: [COORDS[(3 * j + i + 1) % len(COORDS)] + j for i in range(n)] for j, kind in enumerate(COORD_KINDS)}
+    if production == 'direct':
+        da = sc.DataArray(sc.array(dims=['x'], values=np.asarray(ys), variances=np.asarray(es), unit='one'))
+        for kind in subset:
+            if kind == 'scalar':
+                da.coords['spectrum'] = sc.scalar(8.0, unit='one')
+            else:
+                da.coords[COORD_NAME[kind]] = sc.array(dims=['x'], values=np.asarray(table[kind]), unit='one')
+    else:
+        # one row of 2-d data: the coordinate of the sliced dimension stays behind as an unaligned scalar
+        d2 = sc.DataArray(sc.array(dims=['spectrum', 'x'], values=np.asarray([[9.0] * n, ys]), variances=np.asarray([[1.0] * n, es]), unit='one'))
+        for kind in subset:
+            if kind == 'scalar':
+                d2.coords['spectrum'] = sc.array(dims=['spectrum'], values=[7.0, 8.0], unit='one')
+            else:
+                d2.coords[COORD_NAME[kind]] = sc.array(dims=['x'], values=np.asarray(table[kind]), unit='one')
+        da = d2['spectrum', 1].copy()
+        if 'scalar' in subset and da.coords['spectrum'].aligned:
+            raise RuntimeError('harness: slicing was expected to leave an unaligned scalar coordinate')
+    for kind, flag in zip(subset, flags, strict=True):
+        da.coords.set_aligned(COORD_NAME[kind], flag)
+    if sorted(da.coords.keys()) != sorted(COORD_NAME[k] for k in subset) or da.dims != ('x',):
+        raise RuntimeError('harness: coordinate set not as requested')
+    return da, ys, es, table
+
+
+def _run_alignment(case, rec, tgt):
+    subset, production = case['subset'], case['production']
+    for n in (1, 3):
+        for flags in itertools.product((True, False), repeat=len(subset)):
+            if production == 'slice_of_2d' and 'scalar' in subset and flags[subset.index('scalar')]:
+                rec.cls('alignment_scalar_realigned')
+            for explicit in [None, *subset]:
+                da, ys, es, table = build_aligned_da(n, subset, flags, production)
+                chosen = expected_choice(subset, explicit)
+                kw = {} if explicit is None else {'coord': COORD_NAME[explicit]}
+                sub = {'rows': n, 'aligned': dict(zip(subset, flags, strict=True)), 'explicit': explicit}
+                rec.states += 1
+                rec.nontrivial += 1
+                n_unaligned = sum(1 for f in flags if not f)
+                if chosen is None:
+                    why = 'nocoord' if not subset else 'scalar_coord' if (explicit == 'scalar' or subset == ['scalar']) else 'ambiguous'
+                    _expect_refusal(rec, tgt, da, kw, [why], **sub)
+                    if why == 'ambiguous' and len(subset) - n_unaligned == 1:
+                        rec.cls('ambiguous_with_exactly_one_aligned')
+                    if why == 'ambiguous' and n_unaligned == len(subset):
+                        rec.cls('ambiguous_all_unaligned')
+                    continue
+                name = COORD_NAME[chosen]
+                if judge_roundtrip(rec, case, tgt, da, table[chosen], ys, es, header_kw={}, coord_kw=kw.get('coord'),
+                                   load_coord=None if name == 'x' else name, sub=sub, check_text=False):
+                    rec.cls('alignment_written_' + ('explicit' if explicit else 'deduced'))
+                    if not flags[subset.index(chosen)]:
+                        rec.cls('alignment_unaligned_coord_written')
+    rec.cls('production_' + production)
+
+
+# ---------------------------------------------------------------------------------------
+# target representation x suffix x pre-existing file
+
+SUFFIXES = ('.xye', '.dat', '', '.gz', '.bz2', '.xz', '.GZ', '.xye.gz')
+PREEXISTING = ('none', 'longer_valid', 'garbage')
+_OPENERS = {'.gz': 'gzip', '.bz2': 'bz2', '.xz': 'lzma'}
+
+
+def _run_target_rep(case, rec, tgt):
+    import importlib
+
+    suffix, pre = case['suffix'], case['preexisting']
+    directory = os.path.dirname(tgt.path)
+    tgt.path = os.path.join(directory, 'spectrum' + suffix)
+    ext = os.path.splitext(tgt.path)[1]
+    by_path = tgt.kind in ('path_str', 'path_obj')
+    tgt.compressed = by_path and ext in _OPENERS  # numpy compresses by (case-sensitive) suffix, only when it opens the file itself
+    rec.cls('suffix_' + (suffix or 'none'))
+    rec.cls('preexisting_' + pre)
+    for k, n in enumerate((1, 3, 40)):
+        xs, ys, es = _small_rep_table(n, k)
+        da = make_da(xs, ys, es)
+        sub = {'rows': n}
+        if tgt.kind != 'sio':
+            tgt.reset()
+            if pre == 'longer_valid':
+                old = make_da(*_small_rep_table(n + 7, k + 5))
+                tgt.save(old, header='old file\n1 2 3')
+            elif pre == 'garbage':
+                with open(tgt.path, 'wb') as f:
+                    f.write(b'\x00\xffnot a table\n1 2\n' * 50)
+        ok = judge_roundtrip(rec, case, tgt, da, xs, ys, es, header_kw={}, sub=sub, keep_existing=True)
+        rec.states += 1
+        rec.nontrivial += 1
+        if tgt.kind == 'sio':
+            continue
+        # what is on disk: exactly the target, nothing next to it
+        left = sorted(os.listdir(directory))
+        if left != [os.path.basename(tgt.path)]:
+            rec.viol('save_xye', 'stray_files', f'directory holds {left} after saving to {os.path.basename(tgt.path)!r}', **sub)
+            ok = False
+        # ... and it holds the text that the same call writes to a StringIO (compressed by the suffix numpy honours)
+        ref = StringIO()
+        save_xye(ref, da)
+        rec.transitions += 1
+        with open(tgt.path, 'rb') as f:
+            raw = f.read()
+        if tgt.compressed:
+            try:
+                raw = importlib.import_module(_OPENERS[ext]).decompress(raw)
+                rec.cls('disk_compressed_readable')
+            except Exception as e:  # noqa: BLE001 - any failure to decompress is the finding
+                rec.viol('save_xye', 'compressed_suffix_not_compressed', f'{os.path.basename(tgt.path)!r} cannot be read with {_OPENERS[ext]}: {type(e).__name__}: {e}; starts with {raw[:20]!r}', **sub)
+                continue
+        if raw.decode('utf-8') != ref.getvalue():
+            rec.viol('save_xye', 'path_vs_fileobject_text', f'content of {os.path.basename(tgt.path)!r} differs from the text written to a StringIO', **sub)
+            ok = False
+        rec.validated += 1
+        if ok:
+            rec.cls('target_rep_ok')
+
+
+def _small_rep_table(n, k):
+    xs = [COORDS[(1 + i + k) % len(COORDS)] + i for i in range(n)]
+    ys = [VALUES[(i + 2 * k) % len(VALUES)] for i in range(n)]
+    es = [VARS[(3 + i + k) % len(VARS)] for i in range(n)]
+    return xs, ys, es
 
 
 # =========================================================================================
